@@ -357,35 +357,94 @@ func c04DropCR(c *Ctx, r *Report) {
 			return true
 		})
 	}
-	// dropCR itself: removes exactly one trailing \r
+	// dropCR itself removes at most one byte, and only a trailing \r: every return is the argument, the
+	// argument minus its last byte under the guard "last byte is \r", or TrimSuffix with a one-byte constant
 	if fi := c.MustFunc(r, rule, readaheadPkg, "dropCR"); fi != nil {
 		info := fi.Pkg.TypesInfo
-		okShape := false
-		ast.Inspect(fi.Decl.Body, func(x ast.Node) bool {
-			is, ok := x.(*ast.IfStmt)
-			if !ok {
-				return true
+		var param types.Object
+		if fi.Decl.Type.Params != nil && len(fi.Decl.Type.Params.List) == 1 && len(fi.Decl.Type.Params.List[0].Names) == 1 {
+			param = info.Defs[fi.Decl.Type.Params.List[0].Names[0]]
+		}
+		vi := analyseVars(info, fi.Decl)
+		fg := NewFGraph(fi.Decl.Body, info)
+		fg.SolveFacts(vi)
+		isLenMinus1 := func(e ast.Expr) bool {
+			be, ok := ast.Unparen(e).(*ast.BinaryExpr)
+			if !ok || be.Op != token.SUB {
+				return false
 			}
-			txt := exprStr(is.Cond)
-			if strings.Contains(txt, "len(data) > 0") && strings.Contains(txt, "data[len(data) - 1] == '\\r'") {
-				for _, st := range is.Body.List {
-					if rs, ok := st.(*ast.ReturnStmt); ok && len(rs.Results) == 1 {
-						if sx, ok := ast.Unparen(rs.Results[0]).(*ast.SliceExpr); ok && exprStr(sx.High) == "len(data) - 1" {
-							okShape = true
+			v, isC := constInt(info, be.Y)
+			ce, isCall := ast.Unparen(be.X).(*ast.CallExpr)
+			return isC && v == 1 && isCall && calleeName(info, ce) == "builtin.len" && len(ce.Args) == 1 && identObj(info, ce.Args[0]) == param
+		}
+		lastIsCR := func(pos token.Pos) bool {
+			for _, f := range fg.FactsAtPos(pos) {
+				if !f.Truth || f.Tag != nil {
+					continue
+				}
+				found := false
+				ast.Inspect(f.Cond, func(y ast.Node) bool {
+					be, ok := y.(*ast.BinaryExpr)
+					if !ok || be.Op != token.EQL {
+						return true
+					}
+					for _, pair := range [][2]ast.Expr{{be.X, be.Y}, {be.Y, be.X}} {
+						if v, isC := constInt(info, pair[1]); isC && v == '\r' {
+							if ix, ok := ast.Unparen(pair[0]).(*ast.IndexExpr); ok && identObj(info, ix.X) == param && isLenMinus1(ix.Index) {
+								found = true
+							}
 						}
 					}
+					return true
+				})
+				if found {
+					return true
 				}
 			}
+			return false
+		}
+		nRet := 0
+		inspectNoLit(fi.Decl.Body, func(x ast.Node) bool {
+			rs, ok := x.(*ast.ReturnStmt)
+			if !ok || len(rs.Results) != 1 {
+				return true
+			}
+			nRet++
+			e := ast.Unparen(rs.Results[0])
+			okForm, why := false, ""
+			switch t := e.(type) {
+			case *ast.Ident:
+				okForm = info.Uses[t] == param
+				why = "shape: the argument itself"
+			case *ast.SliceExpr:
+				lowZero := t.Low == nil
+				if v, isC := constInt(info, t.Low); t.Low != nil && isC && v == 0 {
+					lowZero = true
+				}
+				okForm = identObj(info, t.X) == param && lowZero && isLenMinus1(t.High) && lastIsCR(rs.Pos())
+				why = "shape: one byte shorter, under the guard that the last byte is \\r"
+			case *ast.CallExpr:
+				if cn := calleeName(info, t); (cn == "bytes.TrimSuffix" || cn == "bytes.CutSuffix") && len(t.Args) == 2 && identObj(info, t.Args[0]) == param {
+					if tv, ok := info.Types[ast.Unparen(t.Args[1])]; ok {
+						_ = tv
+					}
+					if conv, ok := ast.Unparen(t.Args[1]).(*ast.CallExpr); ok && len(conv.Args) == 1 {
+						if s, isS := constString(info, conv.Args[0]); isS && s == "\r" {
+							okForm = true
+						}
+					}
+					why = "shape: TrimSuffix with the one-byte constant \\r"
+				}
+			}
+			r.Check(okForm, rule, fi.Name, stmtStr(rs), c.Pos(rs.Pos()), why,
+				"dropCR returns "+exprStr(e)+", which is neither its argument, nor the argument minus exactly its last byte under the test that this byte is a carriage return: more than the one trailing \\r of a terminated line can be removed (or a byte that is not a \\r)")
 			return true
 		})
-		_ = info
-		if okShape {
-			r.OK(rule, fi.Name, "drops one trailing \\r", c.Pos(fi.Decl.Pos()), "shape: non-empty and last byte is \\r => one byte shorter")
-		} else {
-			r.Notes = append(r.Notes, "dropCR has a shape this rule does not recognise; its behaviour was not checked")
+		if nRet == 0 {
+			r.Bad(rule, fi.Name, "returns", c.Pos(fi.Decl.Pos()), "dropCR has no return statement this rule can classify")
 		}
 	}
-	r.Floor(rule, 5, "token assignments of both scanners")
+	r.Floor(rule, 6, "token assignments of both scanners and at least one return of dropCR")
 }
 
 var reviewedReadahead = []reviewedEntry{
